@@ -81,7 +81,7 @@ func flagTest(mm *core.MapModel, v ssa.Value) (ok, resizingOnTrue bool) {
 		if !isConst || !isLoad {
 			return false, false
 		}
-		if a.Owner != mm.Name || a.Field != mm.FlagF {
+		if !mm.IsFlag(a) {
 			return false, false
 		}
 		// flag==1 or flag!=0 : true edge = resizing
